@@ -170,24 +170,51 @@ func (j *Job) HandleDeregisterSourceRunner(sr *jobpb.NodeIdentity) {
 }
 
 func (j *Job) HandleCreateSavepoint(ctx context.Context) (uint64, error) {
-	if j.status.Value() != StatusRunning {
-		return 0, fmt.Errorf("cannot create savepoint: job not running (status: %s)", j.status)
-	}
-
 	// Create a pending savepoint in the snapshot store to track savepointing.
-	checkpointID, created, err := j.snapshotStore.CreateSavepoint(j.assembly.OperatorIDs(), j.assembly.SourceRunnerIDs())
+	assembly, checkpointID, created, err := j.createPendingCheckpoint(j.snapshotStore.CreateSavepoint)
+	if errors.Is(err, errJobNotRunning) {
+		return 0, fmt.Errorf("cannot create savepoint: %v", err)
+	}
 	if err != nil {
 		return 0, fmt.Errorf("failed creating savepoint: %v", err)
 	}
 
 	// Only start the checkpoint if it's new. Otherwise the checkpoint was already in-flight.
 	if created {
-		if err := j.assembly.StartCheckpoint(ctx, checkpointID); err != nil {
+		if err := assembly.StartCheckpoint(ctx, checkpointID); err != nil {
 			return 0, fmt.Errorf("failed starting snapshot: %w", err)
 		}
 	}
 
 	return checkpointID, nil
+}
+
+var errJobNotRunning = errors.New("job not running")
+
+// createPendingCheckpoint creates a pending checkpoint or savepoint for the
+// running assembly and returns that assembly. It does so on the task queue,
+// serialized with the status changes of the job. Savepoint requests and the
+// checkpoint timer run on goroutines of their own: if they looked at the status
+// and the assembly themselves, the job could give that assembly up in between
+// (abandoning what was pending on it), and the checkpoint would be created for
+// an assembly that no longer exists. It could never complete and would block
+// every later checkpoint.
+func (j *Job) createPendingCheckpoint(
+	create func(operatorIDs, sourceRunnerIDs []string) (id uint64, created bool, err error),
+) (assembly *Assembly, id uint64, created bool, err error) {
+	done := make(chan struct{})
+	j.taskQueue <- func() error {
+		defer close(done)
+		if j.status.Value() != StatusRunning {
+			err = fmt.Errorf("%w (status: %s)", errJobNotRunning, j.status)
+			return nil
+		}
+		assembly = j.assembly
+		id, created, err = create(assembly.OperatorIDs(), assembly.SourceRunnerIDs())
+		return nil
+	}
+	<-done
+	return assembly, id, created, err
 }
 
 func (j *Job) HandleGetSavepointURI(ctx context.Context, savepointID uint64) (string, error) {
@@ -330,12 +357,18 @@ func (j *Job) start() error {
 		j.status.Set(StatusRunning)
 
 		j.checkpointTicker = j.clock.Every(1*time.Minute, func(tc *clocks.EveryContext) {
-			cpID, err := j.snapshotStore.CreateCheckpoint(j.assembly.OperatorIDs(), j.assembly.SourceRunnerIDs())
+			assembly, cpID, _, err := j.createPendingCheckpoint(func(operatorIDs, sourceRunnerIDs []string) (uint64, bool, error) {
+				id, err := j.snapshotStore.CreateCheckpoint(operatorIDs, sourceRunnerIDs)
+				return id, err == nil, err
+			})
 			if errors.Is(err, snapshots.ErrCheckpointInProgress) {
 				tc.RetryIn(1 * time.Second)
 				return
 			}
-			if err := j.assembly.StartCheckpoint(context.Background(), cpID); err != nil {
+			if errors.Is(err, errJobNotRunning) {
+				return // the timer fired while the assembly was being given up
+			}
+			if err := assembly.StartCheckpoint(context.Background(), cpID); err != nil {
 				j.log.Error("failed to start checkpoint", "err", err)
 			}
 		}, "checkpointing")
